@@ -58,7 +58,8 @@ def main():
         sh(f"git apply {patch}", cwd=wt)
         if demo:
             rc, out = sh(f"cargo test --offline -p {pkg_name(wt, pkg)} --test verif_seed_demo 2>&1 | tail -15", cwd=wt)
-            confirm["demo_fails_with_change"] = ("test result: FAILED" in out) or ("panicked" in out)
+            confirm["demo_fails_with_change"] = (("test result: FAILED" in out) or ("panicked" in out)
+                                                or ("could not compile" in out))
             os.remove(dst)
         rc, out = sh("cargo test --workspace --offline 2>&1 | grep -E '^test result|FAILED|failed' | head -40", cwd=wt)
         confirm["suite_passes_with_change"] = ("FAILED" not in out and "failed" not in out.replace("0 failed", ""))
